@@ -11,6 +11,9 @@ GROUPS = [  # (name, driver mode, spec Mode, maxBytes, maxRecords, sizes, depth 
     # production-sized messages: the encoder's 1 MiB message buffer grows and is reused by the chunks after a large one
     ("forward-large", "Forward", "ff", 3000000, 0, "20,70000,2400000", 4, 5),
     ("packed-large", "PackedForward", "ff", 3000000, 0, "20,70000,2400000", 4, 5),
+    # payload lengths on both sides of the bin8 / bin16 length-header boundaries of the packed modes (255/256/257, 65535/65536/65537)
+    ("packed-bin8-boundary", "PackedForward", "ff", 300, 0, "128,127,129", 4, 5),
+    ("packed-bin16-boundary", "PackedForward", "ff", 70000, 0, "32768,32767,32769", 3, 4),
     ("datadog", "Datadog", "dd", 70, 3, "20,21,22,30,45,68,69,70", 4, 5),
     ("datadog-bytes-only", "Datadog", "dd", 100, 0, "47,48,49,50,20", 5, 6),
 ]
@@ -29,10 +32,13 @@ def run(chk):
         cov["mc_runs"].append({"cfg": cfg, "distinct": r.get("distinct"), "ok": True})
     events = cases = 0
     sample = None
+    # a pipeline's tag is expanded from key values, i.e. arbitrary bytes: two groups run under a tag that is not valid UTF-8
+    TAGS = {"forward": b"dev.caf\xe9", "packed": b"d\xff.\xc3", "compressed": b"dev.\xe2\x82"}
     for name, mode, smode, mb, mr, sizes, dq, dt in GROUPS:
+        tagb = TAGS.get(name, b"verif.tag")
         res = fncommon.run_fn(chk, "pk", "PackerTrace", "PackerTrace.cfg",
-                              ["-mode", mode, "-maxbytes", str(mb), "-maxrecords", str(mr), "-sizes", sizes, "-depth", str(dt if thorough else dq)],
-                              consts={"Mode": '"%s"' % smode, "MaxBytes": mb, "MaxRecords": mr}, tag="-" + name)
+                              ["-mode", mode, "-maxbytes", str(mb), "-maxrecords", str(mr), "-sizes", sizes, "-depth", str(dt if thorough else dq), "-tag", tagb.hex()],
+                              consts={"Mode": '"%s"' % smode, "MaxBytes": mb, "MaxRecords": mr, "Tag": '"%s"' % tagb.hex()}, tag="-" + name)
         events += res["events"]; cases += res["cases"]
         sample = sample or res["first_trace"]
         for e, txt in res["findings"][:2]:
